@@ -125,8 +125,17 @@ class FrameItem(EFLRItem):
             assign_if_none(self.index_max, index_data.shape[0])
 
         else:
-            assign_if_none(self.index_min, index_data.min())
-            assign_if_none(self.index_max, index_data.max())
+            index_min, index_max = index_data.min(), index_data.max()
+            if index_data.dtype.kind == 'f' and (index_min == 0 or index_max == 0):
+                # numpy does not order -0.0 and 0.0: which of them is returned depends on how the data lie in memory
+                # (i.e. on the kind of data source); take -0.0 for the smaller one
+                zeros_negative = np.signbit(index_data[index_data == 0])
+                if index_min == 0:
+                    index_min = index_data.dtype.type(-0.0 if zeros_negative.any() else 0.0)
+                if index_max == 0:
+                    index_max = index_data.dtype.type(-0.0 if zeros_negative.all() else 0.0)
+            assign_if_none(self.index_min, index_min)
+            assign_if_none(self.index_max, index_max)
             for at in (self.index_min, self.index_max, self.spacing):
                 assign_if_none(at, key='units', value=index_channel.units.value)
 
